@@ -1,7 +1,7 @@
 (** Observations of the compiled generated module (recording shim) compared, inside Coq, with the meaning the
     specifications give to the extracted output. Ties the "what the generated code does" definitions
     ([Overrides.constants_map]) to what rustc-compiled code actually did. *)
-From W2W Require Export Out C12Spec Overrides.
+From W2W Require Export Out C12Spec Overrides C04Spec Obs.
 Local Open Scope N_scope.
 
 Definition oval_eqb (a b : oval) : bool :=
@@ -35,5 +35,57 @@ Definition obs_constants_ok (r : result out) (a : list (string * option oval)) (
       | Some oo => match sem_constants_map oo (assign_of a) with Some mp => same_set mp observed | None => false end
       | None => match observed with [] => true | _ => false end
       end
+  | _ => true
+  end.
+
+(** * C04: the recorded device calls of the compiled module against [Spec/Obs.v] on the extracted output *)
+Definition nsk_eqb (a b : N * string * res_kind) : bool :=
+  N.eqb (fst (fst a)) (fst (fst b)) && String.eqb (snd (fst a)) (snd (fst b)) && res_kind_eqb (snd a) (snd b).
+
+(** [built]: per group (number, binding indices of the layout the bind group was created with, entries
+    (binding, field whose tagged value arrived, kind)) as recorded when [from_bindings] ran *)
+Definition obs_built_ok (r : result out) (built : list (N * list N * list (N * string * res_kind))) : bool :=
+  match r with
+  | Ok o =>
+      match o_bind_groups o with
+      | Some bg =>
+          Nat.eqb (length built) (length (bg_groups bg))
+          && forallb (fun b =>
+               match find_group bg (fst (fst b)) with
+               | Some og =>
+                   match obs_from_bindings bg og with
+                   | Some (lay, ents) => list_eqb N.eqb lay (snd (fst b)) && list_eqb nsk_eqb ents (snd b)
+                   | None => false
+                   end
+               | None => false
+               end) built
+      | None => match built with [] => true | _ => false end
+      end
+  | _ => true
+  end.
+
+(** recorded [set_bind_group(index, bind group of group g, [])] sequences: each group's own [set] (three pass kinds),
+    [BindGroups::set], [set_bind_groups] *)
+Definition obs_sets_ok (r : result out) (single : list (N * list (N * N))) (all_struct all_fn : list (list (N * N))) : bool :=
+  match r with
+  | Ok o =>
+      match o_bind_groups o with
+      | Some bg =>
+          forallb (fun s => match find_group bg (fst s) with
+                            | Some og => list_eqb nn_eqb [obs_set og] (snd s)
+                            | None => false end) single
+          && match obs_bindgroups_set bg with Some l => forallb (list_eqb nn_eqb l) all_struct | None => false end
+          && match obs_set_bind_groups bg with Some l => forallb (list_eqb nn_eqb l) all_fn | None => false end
+      | None => match single, all_struct, all_fn with [], [], [] => true | _, _, _ => false end
+      end
+  | _ => true
+  end.
+
+(** recorded pipeline layout: per slot the group whose layout descriptor was used and its binding indices *)
+Definition obs_pl_ok (r : result out) (pl : list (N * list N)) : bool :=
+  match r with
+  | Ok o => match obs_pipeline_layout o with
+            | Some l => list_eqb (pair_eqb N.eqb (list_eqb N.eqb)) l pl
+            | None => false end
   | _ => true
   end.
